@@ -478,7 +478,9 @@ static int bad_CVCVal2(fc_ctx* c, int j, err_t* exp)
 		b2_date(ca->until, (unsigned)c->n[29] - 1);
 		return 1;
 	case 5: ca->from[2] = 2, ca->from[3] = 0; return 1;        /* issuer validity malformed (month 20) */
-	case 6: if (c->n[24] < 60) return 0; ((octet*)c->a[24])[c->n[24] / 3] ^= (octet)(1u << fc_below(c, 8)); return 1;
+	case 6: if (c->n[24] < 60) return FC_SOFT(exp); ((octet*)c->a[24])[c->n[24] / 3] ^= (octet)(1u << fc_below(c, 8)); return 1;
+	case 7: ((octet*)c->a[5])[2] = 1, ((octet*)c->a[5])[3] = 3; return 1;      /* verification date: month 13 */
+	case 8: ((octet*)c->a[5])[fc_below(c, 6)] = (octet)(10 + fc_below(c, 200)); return 1;   /* not a decimal digit */
 	}
 	return 0;
 }
